@@ -188,6 +188,13 @@ def snapshot(path):
     if stat.S_ISDIR(st.st_mode):
         rec(path, "")
         return out
+    if stat.S_ISLNK(st.st_mode):
+        try:
+            with REAL["open"](path, "rb") as f:
+                data = f.read()
+        except OSError:
+            data = None  # dangling (or a link to a directory): holds no bytes of its own
+        return {"": ("symlink", data, os.readlink(path))}
     with REAL["open"](path, "rb") as f:
         return {"": ("file", f.read(), bool(st.st_mode & 0o111))}
 
